@@ -263,6 +263,8 @@ def run_shard(ctx):
         else:
             opts = gs.Opts(defaults=0.3)
             schema = gs.with_definitions(rng, opts) if idx % 2 else gs.any_schema(rng, opts)[0]
+            if isinstance(schema, dict) and idx % 4 == 1 and gs.add_vacuous(rng, schema, count=rng.randint(1, 3)):
+                ctx.count("source.vacuous_keywords")
             if not isinstance(schema, dict) or not refmodel.metaschema_valid(schema):
                 continue
             try:
